@@ -1,7 +1,7 @@
 from registry import rc, fuzz
 
 PROP = dict(
-    parts=[rc('C19_date', quick_workers=4, thorough_workers=16, quick_timeout=300, thorough_timeout=1500),
+    parts=[rc('C19_date', quick_workers=4, thorough_workers=16, quick_timeout=300, thorough_timeout=1500, confirm='flaky'),  # flaky: the 'mt' op races threads
            fuzz('C19_dateparse', quick_runs=1500000, thorough_runs=32000000, thorough_jobs=8, max_len=40, quick_timeout=120, thorough_timeout=600)],
     floor=dict(quick=5000000, thorough=15000000),
     rule=("Enumerated completely (exhaustive parts): (1) every day 0001-01-01..9999-12-31 (3,652,059 days) at 00:00:00, 12:00:00 and "
@@ -17,6 +17,24 @@ PROP = dict(
           "same carry rule as splitUTC; Date(Date::UTC, fields).time() == t exactly; "
           "Date(Date(t).toUTCString(F)).time() == t for F in LONG, SHORT, HTTP and within 1 ms for FULL. (3) all zone offsets "
           "-23:59..+23:59 in the +-hh (whole hours), +-hhmm and +-hh:mm forms, basic and extended, on one instant each. "
+          "(3b) other time zones: the case itself sets TZ (setenv + tzset) to one of 13 POSIX rule strings and restores it: fixed offsets "
+          "+5, -8, +12, -11, +14, -12, +1 h, the DST zones CET-1CEST,M3.5.0,M10.5.0/3, EST5EDT,M3.2.0,M11.1.0, "
+          "NZST-12NZDT,M9.5.0,M4.1.0/3, and +5:30, +0:45, -3:30. Failing oracles under the zone (only what the statement claims): "
+          "toString(LONG/SHORT/FULL) [local time, no zone designator] parses back to t (FULL within 1 ms); toUTCString(LONG/HTTP) parses back to "
+          "t; the zone-less LONG text T with the zone's numeric offset appended (+hh:mm) parses to civil(T) - offset (T read by the harness); "
+          "splitUTC == reference fields and Date(UTC, fields) == t whatever TZ is. Observed only (class counters zones.obs.*, never a "
+          "failure, because the statement does not claim true local time): localOffset() == the zone's offset (harness/common/ref_tz.h: own "
+          "evaluation of the POSIX rule, audited against libc's tm_gmtoff at every start), split()/accessors == fields of t + offset, "
+          "Date(y,m,d,h,mi,s) of the local fields == t. Instants: New Year +-14 h hourly for every year 2..9999 (quick: one zone per "
+          "instant rotating, every zone for 1969..2039; thorough: every zone, exhaustive), every 97th day x 3 times, every 61st second of the "
+          "sampled days, and pseudo-random (zone, instant) pairs biased to year ends and to the edges of the excluded windows. Excluded by "
+          "construction (counted as zones.skipped_*): instants within 2 h of a DST transition in 1970..2037 (the repeated local hour is "
+          "inherently ambiguous; nothing else fails there on the unchanged tree), within 12 days of a rule transition in other years (asl "
+          "documents an approximate offset outside the epoch: it evaluates the zone at an instant of 1972 in the same season, so its repeated "
+          "hour lies -3.8..+5.3 days from the rule's), and the three minute-offset zones outside 1970-01-02..2037-12-31 (the unchanged tree "
+          "breaks the zone-less round trip there, see DESIGN.md). (3c) threads: 1-4 std::threads, each with its own Date/String objects, do "
+          "100-300 HTTP/LONG/FULL round trips in UTC on their own instants while parsing HTTP-shaped junk ('Xxx, 01 Qqq 2000 00:00:00 GMT' "
+          "with fresh 3-5 letter tokens) in between: every round trip must still give its instant; ASan watches the shared state. "
           "Generated (rapidcheck, shrinking; and in bulk from a SplitMix stream seeded by VERIF_SEED/worker whose draws are written into "
           "the cases -- 120 k + 150 k cases per quick worker, 1.5 M + 1.5 M per thorough worker): (4) instants X + 0.d with 1..9 fraction digits, X on sampled / random days at second 0, 59, xx:59:59, "
           "23:59:59 or random, fractions biased to the last half millisecond (>= .9995), the rounding point .9995 +- 1e-8, the first half "
@@ -34,7 +52,10 @@ PROP = dict(
           "fractional instants in the first/last half millisecond or at second 0 / 86399 of a day; ISO texts with a non-zero offset; "
           "strings that are date-like by a syntactic test (4 leading digits and >= 8 characters, or a capital first letter and >= 5 "
           "spaces). Distinct = by construction (enumerated) or distinct FNV-1a hash of the case (generated, fuzzer)."),
-    assumptions=["the process runs with TZ=UTC (checked at start: TZ == 'UTC' and localOffset() == 0 on probe instants, otherwise the run is an "
+    assumptions=["POSIX TZ rule strings are honoured by libc without tzdata (checked: the harness's offsets are compared with tm_gmtoff at start); "
+                 "setenv/tzset happen only on the main thread while no other thread runs; the thread part uses the UTC API only (asl's "
+                 "localOffset() calls localtime()/gmtime(), whose static buffers make the local-time API non-reentrant by design of libc)",
+                 "the process runs with TZ=UTC (checked at start: TZ == 'UTC' and localOffset() == 0 on probe instants, otherwise the run is an "
                  "infrastructure error): under it the local-time accessors split(), year(), month(), day(), hours(), minutes(), seconds(), "
                  "weekDay() must give the UTC calendar fields; a replay outside TZ=UTC skips these comparisons",
                  "the harness's reference calendar (days-from-civil / civil-from-days in a March-based 400-year era) is right; it is audited at every "
